@@ -136,24 +136,28 @@ def _resolves_to(model, f, expr, const_name):
 
 
 def rule_converters(ctx, res):
+    from ..absint.symbody import SymBody
     model = ctx.model
-    # ---- decoder bytes -> text
+    u = ast.unparse
+    # ---- decoder bytes -> text ------------------------------------------------
     q = 'pico8.lua.lua:p8scii_to_unicode'
     f = model.func(q)
     param = f.params()[0]
-    rets = [n for n in walk_own(f.node) if isinstance(n, ast.Return)]
+    paths = SymBody(ctx, f).run(f.node.body)
     ok = False
     detail = 'unrecognised shape'
-    if len(rets) == 1 and isinstance(rets[0].value, ast.Call):
-        c = rets[0].value
-        if isinstance(c.func, ast.Attribute) and c.func.attr == 'join' and \
+    if len(paths) == 1 and paths[0].end == 'return' and \
+            paths[0].ret is not None and not paths[0].conds:
+        c = paths[0].ret
+        if isinstance(c, ast.Call) and isinstance(c.func, ast.Attribute) and \
+                c.func.attr == 'join' and \
                 isinstance(c.func.value, ast.Constant) and \
                 c.func.value.value == '' and len(c.args) == 1 and \
                 isinstance(c.args[0], (ast.GeneratorExp, ast.ListComp)):
             g = c.args[0]
             gen = g.generators[0]
             one = len(g.generators) == 1 and not gen.ifs
-            it_ok = isinstance(gen.iter, ast.Name) and gen.iter.id == param
+            it_ok = u(gen.iter) == param
             e = g.elt
             elt_ok = (isinstance(e, ast.Attribute) and e.attr == 'p8string'
                       and isinstance(e.value, ast.Subscript)
@@ -163,175 +167,127 @@ def rule_converters(ctx, res):
                       and isinstance(gen.target, ast.Name)
                       and e.value.slice.id == gen.target.id)
             ok = one and it_ok and elt_ok
-            detail = 'no-filter={} iterates-param={} elt-is-TABLE[b].p8string={}'.format(
-                one, it_ok, elt_ok)
-    if ok:
-        rb = [x for x in walk_own(f.node) if isinstance(x, ast.Name) and
-              x.id == param and isinstance(x.ctx, ast.Store)]
-        if rb:
-            ok = False
-            detail = 'parameter {} is re-bound before the conversion'.format(
-                param)
-    if ok:
-        res.holds('R-C15-converters', q, 'in-order concatenation',
-                  "''.join(P8SCII_CHARSET[b].p8string for b in bs): every "
-                  'byte, in order, no filter, no other table', f.loc)
-    elif len(rets) == 1 and isinstance(rets[0].value, ast.Call) and \
-            isinstance(rets[0].value.func, ast.Attribute) and \
-            rets[0].value.func.attr == 'join':
-        res.violation('R-C15-converters', q, 'in-order concatenation',
-                      'decoder is not the plain concatenation of the table '
-                      'spellings: ' + detail, f.loc)
-    else:
+            detail = 'no-filter={} iterates-param={} ' \
+                     'elt-is-TABLE[b].p8string={}'.format(one, it_ok, elt_ok)
+            if any(ev[0] not in ('bind',) for ev in paths[0].events):
+                ok = False
+                detail = 'the decoder does something besides building the text'
+            if ok:
+                res.holds('R-C15-converters', q, 'in-order concatenation',
+                          "''.join(P8SCII_CHARSET[b].p8string for b in bs): "
+                          'every byte, in order, no filter, no other table',
+                          f.loc)
+            else:
+                res.violation('R-C15-converters', q, 'in-order concatenation',
+                              'decoder is not the plain concatenation of the '
+                              'table spellings: ' + detail, f.loc)
+            detail = None
+    if detail == 'unrecognised shape':
         res.undecided('R-C15-converters', q, 'in-order concatenation',
                       'decoder written in an idiom outside the model', f.loc)
 
-    # ---- encoder text -> bytes
+    # ---- encoder text -> bytes ------------------------------------------------
     q = 'pico8.lua.lua:unicode_to_p8scii'
     f = model.func(q)
     s = f.params()[0]
-    loops = [n for n in walk_own(f.node) if isinstance(n, ast.While)]
+    loops = [n for n in f.node.body if isinstance(n, ast.While)]
     if len(loops) != 1:
         res.undecided('R-C15-converters', q, 'greedy parse',
-                      'expected one while loop', f.loc)
+                      'expected one while loop at the top level', f.loc)
         return
     lp = loops[0]
-    t = lp.test
-    # while idx < len(s)
+    sym = SymBody(ctx, f)
+    i_lp = f.node.body.index(lp)
+    pre = sym.run(f.node.body[:i_lp])
+    rebinds0 = [x for x in walk_own(f.node) if isinstance(x, ast.Name) and
+                x.id == s and isinstance(x.ctx, ast.Store)]
+    if len(pre) != 1:
+        if rebinds0:
+            res.violation('R-C15-converters', q,
+                          'the text parsed is the argument as given',
+                          'the text is altered before it is parsed: some '
+                          'text no longer converts back to the bytes it came '
+                          'from', f.module.loc(rebinds0[0]))
+            return
+        res.undecided('R-C15-converters', q, 'greedy parse',
+                      'branches before the loop', f.loc)
+        return
+    env0 = pre[0].env
+    carried = {x.id for x in ast.walk(lp) if isinstance(x, ast.Name) and
+               isinstance(x.ctx, ast.Store)}
+    t = sym.S(lp.test, {k: v for k, v in env0.items() if k not in carried})
     idx = None
     if isinstance(t, ast.Compare) and len(t.ops) == 1 and \
             isinstance(t.ops[0], ast.Lt) and isinstance(t.left, ast.Name) and \
-            isinstance(t.comparators[0], ast.Call) and \
-            isinstance(t.comparators[0].func, ast.Name) and \
-            t.comparators[0].func.id == 'len' and \
-            isinstance(t.comparators[0].args[0], ast.Name) and \
-            t.comparators[0].args[0].id == s:
+            u(t.comparators[0]) == 'len({})'.format(s):
         idx = t.left.id
     if idx is None:
         res.undecided('R-C15-converters', q, 'greedy parse',
-                      'loop condition is not idx < len(s)', f.loc)
+                      'loop condition is not idx < len(s): ' + u(t)[:50],
+                      f.loc)
         return
-    init = [v for (st, v) in assignments_to(f.node, idx)
-            if isinstance(st, ast.Assign)]
-    init_ok = len(init) == 1 and isinstance(init[0], ast.Constant) and \
-        init[0].value == 0
-    res.check(init_ok, 'R-C15-converters', q, 'parse starts at 0',
-              'index initialised to 0', 'index not initialised to 0', f.loc)
-
-    # substitute single-assignment locals of the loop body
-    local = {}
-    for st in lp.body:
-        if isinstance(st, ast.Assign) and len(st.targets) == 1 and \
-                isinstance(st.targets[0], ast.Name):
-            local[st.targets[0].id] = st.value
-
-    def width_expr(e, depth=0):
-        """e denotes WIDTHS[s[idx]]"""
-        if isinstance(e, ast.Name) and e.id in local and depth < 3:
-            return width_expr(local[e.id], depth + 1)
-        return (isinstance(e, ast.Subscript) and
-                _resolves_to(model, f, e.value, 'UNICODE_CHAR_WIDTHS') and
-                isinstance(e.slice, ast.Subscript) and
-                isinstance(e.slice.value, ast.Name) and
-                e.slice.value.id == s and
-                isinstance(e.slice.slice, ast.Name) and
-                e.slice.slice.id == idx)
-
-    # idx += width
-    incs = [st for st in walk_own(lp) if isinstance(st, ast.AugAssign) and
-            isinstance(st.target, ast.Name) and st.target.id == idx]
-    other_idx_stores = [st for st in walk_own(lp)
-                        if isinstance(st, ast.Assign) and any(
-                            isinstance(x, ast.Name) and x.id == idx
-                            for tg in st.targets for x in walk_own(tg))]
-    adv_ok = (len(incs) == 1 and not other_idx_stores and
-              isinstance(incs[0].op, ast.Add) and width_expr(incs[0].value)
-              and incs[0] in lp.body)
+    # the text parsed is the argument as given
+    rebinds = [x for x in walk_own(f.node) if isinstance(x, ast.Name) and
+               x.id == s and isinstance(x.ctx, ast.Store)]
+    res.check(not rebinds, 'R-C15-converters', q,
+              'the text parsed is the argument as given',
+              'parameter {} is never re-bound'.format(s),
+              'the text is altered before it is parsed: some text no longer '
+              'converts back to the bytes it came from',
+              f.module.loc(rebinds[0]) if rebinds else f.loc)
+    init = env0.get(idx)
+    res.check(isinstance(init, ast.Constant) and init.value == 0 and
+              not isinstance(init.value, bool), 'R-C15-converters', q,
+              'parse starts at 0', 'index initialised to 0',
+              'index not initialised to 0 ({})'.format(
+                  u(init) if init is not None else None), f.loc)
+    env = {k: v for k, v in env0.items() if k not in carried}
+    acc = [e[1] for e in pre[0].events if e[0] == 'bind' and
+           isinstance(e[2], ast.List) and not e[2].elts]
+    body = sym.run(lp.body, {k: v for k, v in env.items() if k not in acc})
+    W = 'UNICODE_CHAR_WIDTHS[{}[{}]]'.format(s, idx)
+    want_adv = '{} + {}'.format(idx, W)
+    want_app = 'UNICODE_TO_P8SCII[{0}[{1}:{1} + {2}]]'.format(s, idx, W)
+    adv_ok = app_ok = len(body) == 1 and not body[0].conds and \
+        body[0].end == 'fall'
+    got_adv = got_app = None
+    accname = None
+    if adv_ok:
+        p = body[0]
+        got_adv = u(p.env[idx]) if idx in p.env else idx
+        adv_ok = got_adv == want_adv
+        calls = [e for e in p.events if e[0] == 'call']
+        others = [e for e in p.events if e[0] not in ('call',)]
+        app_ok = len(calls) == 1 and not others and \
+            isinstance(calls[0][1], ast.Call) and \
+            isinstance(calls[0][1].func, ast.Attribute) and \
+            calls[0][1].func.attr == 'append' and \
+            isinstance(calls[0][1].func.value, ast.Name) and \
+            len(calls[0][1].args) == 1
+        if app_ok:
+            accname = calls[0][1].func.value.id
+            got_app = u(calls[0][1].args[0])
+            app_ok = got_app == want_app and accname in acc
     res.check(adv_ok, 'R-C15-converters', q,
               'advance by the looked-up width',
               'idx += WIDTHS[s[idx]] exactly once per iteration',
               'the index does not advance by exactly the width of the '
-              'spelling just consumed ({})'.format(
-                  unparse(incs[0]) if incs else 'no increment'),
-              f.module.loc(incs[0]) if incs else f.loc)
-    # result.append(REV[s[idx:idx+width]])
-    appends = [c for c in walk_own(lp) if isinstance(c, ast.Call) and
-               isinstance(c.func, ast.Attribute) and c.func.attr == 'append']
-    app_ok = False
-    if len(appends) == 1 and appends[0].args:
-        a = appends[0].args[0]
-        if isinstance(a, ast.Subscript) and \
-                _resolves_to(model, f, a.value, 'UNICODE_TO_P8SCII') and \
-                isinstance(a.slice, ast.Subscript) and \
-                isinstance(a.slice.value, ast.Name) and \
-                a.slice.value.id == s and \
-                isinstance(a.slice.slice, ast.Slice):
-            sl = a.slice.slice
-            lo_ok = isinstance(sl.lower, ast.Name) and sl.lower.id == idx
-            hi = sl.upper
-            hi_ok = (isinstance(hi, ast.BinOp) and isinstance(hi.op, ast.Add)
-                     and isinstance(hi.left, ast.Name) and hi.left.id == idx
-                     and width_expr(hi.right)) and sl.step is None
-            app_ok = lo_ok and hi_ok
-    # the append must precede the increment in the body
-    order_ok = False
-    if appends and incs:
-        try:
-            ia = [i for i, st in enumerate(lp.body)
-                  if any(c is appends[0] for c in walk_own(st))][0]
-            ii = lp.body.index(incs[0])
-            order_ok = ia < ii
-        except (IndexError, ValueError):
-            order_ok = False
-    res.check(app_ok and order_ok, 'R-C15-converters', q,
+              'spelling just consumed ({})'.format(got_adv), f.loc)
+    res.check(app_ok, 'R-C15-converters', q,
               'one byte per step from the same slice',
-              'result.append(REV[s[idx:idx+width]]) before the advance',
+              'result.append(REV[s[idx:idx+width]]) with idx as it was at '
+              'the start of the step',
               'the looked-up slice is not s[idx:idx+width] of the reverse '
-              'map (or happens after the advance)',
-              f.module.loc(appends[0]) if appends else f.loc)
-    # the text parsed is the argument as given: no re-binding of it
-    rebinds = [st for st in walk_own(f.node)
-               if isinstance(st, (ast.Assign, ast.AugAssign, ast.AnnAssign,
-                                  ast.For, ast.NamedExpr, ast.With))
-               and any(isinstance(x, ast.Name) and x.id == s and
-                       isinstance(x.ctx, ast.Store) for x in walk_own(st)
-                       if x is not st)]
-    res.check(not rebinds, 'R-C15-converters', q,
-              'the text parsed is the argument as given',
-              'parameter {} is never re-bound'.format(s),
-              'the text is altered before it is parsed ({}): some text no '
-              'longer converts back to the bytes it came from'.format(
-                  unparse(rebinds[0], 60) if rebinds else ''),
-              f.module.loc(rebinds[0]) if rebinds else f.loc)
-    # the collected list starts empty and only the loop appends to it
-    acc = None
-    if appends and isinstance(appends[0].func.value, ast.Name):
-        acc = appends[0].func.value.id
-    acc_ok = False
-    if acc:
-        binds = assignments_to(f.node, acc)
-        acc_ok = (len(binds) == 1 and isinstance(binds[0][1], ast.List) and
-                  not binds[0][1].elts and binds[0][0] in f.node.body and
-                  f.node.body.index(binds[0][0]) < f.node.body.index(lp))
-        muts = [c for c in walk_own(f.node) if isinstance(c, ast.Call) and
-                isinstance(c.func, ast.Attribute) and
-                isinstance(c.func.value, ast.Name) and c.func.value.id == acc
-                and c is not appends[0]]
-        acc_ok = acc_ok and not muts
-    res.check(acc_ok, 'R-C15-converters', q,
+              'map ({})'.format(got_app), f.loc)
+    res.check(accname is not None and accname in acc, 'R-C15-converters', q,
               'collected bytes start empty, one append site',
               'result = [] before the loop; no other mutation',
               'the collected byte list is not initialised empty or is '
               'changed outside the one append', f.loc)
-    rets = [n for n in walk_own(f.node) if isinstance(n, ast.Return)]
-    ret_ok = len(rets) == 1 and isinstance(rets[0].value, ast.Call) and \
-        isinstance(rets[0].value.func, ast.Name) and \
-        rets[0].value.func.id == 'bytes' and \
-        len(rets[0].value.args) == 1 and \
-        isinstance(rets[0].value.args[0], ast.Name) and \
-        rets[0].value.args[0].id == acc and \
-        rets[0] in f.node.body and f.node.body.index(rets[0]) > \
-        f.node.body.index(lp)
+    post = sym.run(f.node.body[i_lp + 1:], {})
+    ret_ok = len(post) == 1 and post[0].end == 'return' and \
+        post[0].ret is not None and not post[0].events and \
+        u(post[0].ret) == 'bytes({})'.format(accname)
     res.check(ret_ok, 'R-C15-converters', q, 'returns all collected bytes',
               'bytes(result) after the loop', 'return changed', f.loc)
     res.require_min('R-C15-converters', 7)
@@ -349,6 +305,20 @@ def rule_use(ctx, res):
                    t.qual == 'pico8.lua.lua:unicode_to_p8scii'
                    for t in targets):
                 a = n.args[0] if n.args else None
+                from .. import norm as _norm
+                if a is not None:
+                    a = _norm.subst_locals(f.node, a)
+                if isinstance(a, ast.Call) and \
+                        isinstance(a.func, ast.Attribute) and \
+                        a.func.attr == 'decode' and (
+                            not a.args or (isinstance(a.args[0], ast.Constant)
+                                           and str(a.args[0].value).lower()
+                                           .replace('-', '') == 'utf8')):
+                    found = True
+                    res.holds('R-C15-use', q,
+                              'reader: UTF-8 decode then unicode_to_p8scii',
+                              '', f.module.loc(n))
+                    continue
                 utf8 = (isinstance(a, ast.Call) and
                         isinstance(a.func, ast.Name) and a.func.id == 'str'
                         and any(k.arg == 'encoding' and
@@ -367,34 +337,36 @@ def rule_use(ctx, res):
                       'P8SCII', f.loc)
     q = 'pico8.game.formatter.p8:P8Formatter.to_file'
     f = model.func(q)
-    found = False
-    for n in model.own_nodes(f.node):
+    from .c03 import _is_utf8_of_conversion
+    from .. import norm
+    conv_calls = []
+    for (g, n) in norm.region_nodes(ctx, f):
         if isinstance(n, ast.Call):
-            kind, targets = model.resolve_call(f, n)
+            kind, targets = model.resolve_call(g, n)
             if any(isinstance(t, FuncInfo) and
                    t.qual == 'pico8.lua.lua:p8scii_to_unicode'
                    for t in targets):
-                p = getattr(n, '_parent', None)
-                utf8 = (isinstance(p, ast.Call) and
-                        isinstance(p.func, ast.Name) and p.func.id == 'bytes'
-                        and len(p.args) == 2 and
-                        isinstance(p.args[1], ast.Constant) and
-                        str(p.args[1].value).lower().replace('-', '') ==
-                        'utf8')
-                pp = getattr(p, '_parent', None)
-                written = (isinstance(pp, ast.Call) and
-                           isinstance(pp.func, ast.Attribute) and
-                           pp.func.attr == 'write')
-                found = True
-                res.check(utf8 and written, 'R-C15-use', q,
-                          'writer: p8scii_to_unicode then UTF-8 encode',
-                          '', 'writer does not encode the converted line as '
-                          'UTF-8 into the stream', f.module.loc(n))
-    if not found:
+                conv_calls.append((g, n))
+    if not conv_calls:
         res.violation('R-C15-use', q,
                       'writer: p8scii_to_unicode then UTF-8 encode',
                       'the .p8 writer no longer converts P8SCII to Unicode '
                       'text', f.loc)
+    for (g, n) in conv_calls:
+        var = n.args[0].id if n.args and isinstance(n.args[0], ast.Name) \
+            else None
+        ok = False
+        for w_ in walk_own(g.node):
+            if isinstance(w_, ast.Call) and \
+                    isinstance(w_.func, ast.Attribute) and \
+                    w_.func.attr == 'write' and len(w_.args) == 1 and \
+                    var is not None and \
+                    _is_utf8_of_conversion(model, g, w_.args[0], var):
+                ok = True
+        res.check(ok, 'R-C15-use', q,
+                  'writer: p8scii_to_unicode then UTF-8 encode',
+                  '', 'writer does not encode the converted line as '
+                  'UTF-8 into the stream', g.module.loc(n))
     res.require_min('R-C15-use', 2)
 
 
